@@ -54,7 +54,7 @@ REQUIRED_LABELS = {"all": ["backend:gaussian", "backend:fock", "backend:bosonic"
                            "dagger_decomposed", "rerun_same_object", "compile_untouched",
                            # input classes added by the generator audit (each some hundred times per quick run at seeds 1..5)
                            "fresh_program_follows", "repeat_next_call", "repeat_in_one_list", "old_object_after_reset", "tuple_of_programs",
-                           "run_option_modes", "run_option_modes_empty", "run_option_shots", "refused_run", "reset_with_backend_options",
+                           "run_option_modes", "run_option_modes_empty", "run_option_shots", "refused_run", "reset_with_backend_options", "continuation_deletes_inherited_mode", "continuation_of_continuation",
                            "reset_clears_measured_values", "symbolic_dagger", "symbolic_decomposed", "op:Interferometer"]}
 DECOMPOSED = ("Xgate", "Zgate", "Pgate", "CXgate", "CZgate", "MZgate", "S2gate", "Fouriergate")
 
@@ -865,10 +865,125 @@ def make_machine(ctx):
     return RunMachine
 
 
+# ----------------------------------------------------------------------------------------------
+# continuation programs that delete an inherited subsystem (Program(parent) ... Del | q[k] ...)
+# ----------------------------------------------------------------------------------------------
+DEL_ALPH = ["Dgate", "Sgate", "Rgate", "BSgate", "S2gate", "Xgate", "Zgate", "CXgate", "Fouriergate", "LossChannel", "Coherent", "Squeezed"]
+
+
+@st.composite
+def del_case(draw):
+    be = draw(st.sampled_from(["gaussian", "gaussian", "fock"]))
+    n = draw(st.integers(2, 3 if be == "fock" else 4))
+    energy = "fock" if be == "fock" else "ps"
+    k = draw(st.integers(0, n - 1))
+    rest = [m for m in range(n) if m != k]
+    post = [[o[0], o[1], [rest[m] for m in o[2]]] + list(o[3:]) for o in draw(gen.op_list(len(rest), DEL_ALPH, energy, 0, 3))]
+    return {"backend": be, "n": n, "k": k, "a": draw(gen.op_list(n, DEL_ALPH, energy, 1, 5)), "pre": draw(gen.op_list(n, DEL_ALPH, energy, 0, 2)), "post": post,
+            "third": draw(gen.op_list(len(rest), DEL_ALPH, energy, 0, 2)) if draw(st.booleans()) else None}
+
+
+def _apply_specs(q, ops_):
+    from strawberryfields import ops
+
+    by_ind = {r.ind: r for r in q}  # a continuation of a program with deleted modes lists the active subsystems only
+    for o in ops_:
+        op = spec.make_op(ops, o[0], o[1], o[3] if len(o) > 3 else {})
+        regs = tuple(by_ind[m] for m in o[2])
+        op | (regs if len(regs) != 1 else regs[0])  # pylint: disable=expression-not-assigned
+
+
+def check_del(ctx, case):
+    """A; B = Program(A) with gates, Del | q[k], gates on the remaining modes [; C = Program(B)]: one list, successive calls and the
+    concatenated single program must give refsim's reduced state of the remaining modes, and WRITING or running the continuation must
+    leave the parent program (circuit, register, number of subsystems) untouched"""
+    import strawberryfields as sf
+    from strawberryfields import ops
+
+    be, n, k = case["backend"], case["n"], case["k"]
+    rest = [m for m in range(n) if m != k]
+    third = None if case["third"] is None else [[o[0], o[1], [rest[m] for m in o[2]]] + list(o[3:]) for o in case["third"]]
+    labels = ["continuation_deletes_inherited_mode", "backend:" + be, "modes:%d" % n] + (["continuation_of_continuation"] if third is not None else [])
+    ctx.note(case, nontrivial=bool(gen.has_two_mode(case["a"] + case["pre"])), labels=labels)
+    opts = {"cutoff_dim": 9} if be == "fock" else {}
+
+    def build():
+        A = spec.build_program(n, case["a"])
+        sa = spec.snapshot(A)
+        B = sf.Program(A)
+        with B.context as q:
+            _apply_specs(q, case["pre"])
+            ops.Del | {r.ind: r for r in q}[k]  # pylint: disable=expression-not-assigned
+            _apply_specs(q, case["post"])
+        progs = [A, B]
+        if third is not None:
+            C = sf.Program(B)
+            with C.context as q:
+                _apply_specs(q, third)
+            progs.append(C)
+        return progs, sa
+
+    ref = refsim.Ref(n, 2.0)
+    spec.ref_run(n, case["a"] + case["pre"], 2.0, ref)
+    ref.Vacuum(k)
+    spec.ref_run(n, case["post"] + (third or []), 2.0, ref)
+    mu_r, V_r = ref.reduced(rest)
+    got = {}
+    with sfrun.HbarCtx(2.0):
+        for way in ("list", "successive", "concatenated"):
+            try:
+                if way == "concatenated":
+                    P = sf.Program(n)
+                    with P.context as q:
+                        _apply_specs(q, case["a"] + case["pre"])
+                        ops.Del | q[k]  # pylint: disable=expression-not-assigned
+                        _apply_specs(q, case["post"] + (third or []))
+                    state = sf.Engine(be, backend_options=opts).run(P).state
+                else:
+                    progs, sa = build()
+                    d = spec.snapshot_diff(sa, spec.snapshot(progs[0]))
+                    if d:
+                        return ctx.fail("untouched.parent_altered_by_writing_a_continuation", "after writing B = Program(A) with Del | q[%d]: %s" % (k, d))
+                    eng = sf.Engine(be, backend_options=opts)
+                    if way == "list":
+                        state = eng.run(progs).state
+                    else:
+                        for P in progs:
+                            state = eng.run(P).state
+                    d = spec.snapshot_diff(sa, spec.snapshot(progs[0]))
+                    if d:
+                        return ctx.fail("untouched.parent_altered_by_running_a_continuation", "after running [A, B] (%s): %s" % (way, d))
+            except Violation:
+                raise
+            except Exception as exc:  # pylint: disable=broad-except
+                if isinstance(exc, (RuntimeError, sf.program_utils.CircuitError)) and way != "concatenated":
+                    return ctx.fail("compositional.continuation_with_del_refused", "%s run of A, B = Program(A) with Del | q[%d] raises %s: %s although the concatenated "
+                                    "program is valid" % (way, k, type(exc).__name__, str(exc)[:200]))
+                return ctx.crash(exc, "continuation_del." + way)
+            if state.num_modes != len(rest):
+                return ctx.fail("compositional.continuation_del.num_modes", "%s: state has %d modes, %d expected" % (way, state.num_modes, len(rest)))
+            got[way] = sfrun.moments_of(state, be, 2.0)[:2]
+    tol_same = 1e-9 if be == "gaussian" else 1e-7
+    for way in ("successive", "concatenated"):
+        dd = max(float(np.max(np.abs(got[way][0] - got["list"][0]))), float(np.max(np.abs(got[way][1] - got["list"][1]))))
+        if dd > tol_same * (1 + float(np.max(np.abs(V_r)))):
+            return ctx.fail("compositional.continuation_del.%s_differs_from_list" % way, "moments of the remaining modes differ by %.3g" % dd)
+    if be == "gaussian" or tail_weight(ref, 9) < 1e-4:
+        tol = 1e-8 if be == "gaussian" else 5e-3
+        dd = max(float(np.max(np.abs(got["list"][0] - mu_r))), float(np.max(np.abs(got["list"][1] - V_r))))
+        if dd > tol * (1 + float(np.max(np.abs(V_r)))):
+            return ctx.fail("compositional.continuation_del.differs_from_reference", "moments of the remaining modes %s differ from the reduced reference state by %.3g" % (rest, dd))
+    return None
+
+
 SUBS = [
     Sub("run_machine", check=check_history, machine=make_machine, examples={"quick": 110, "thorough": 600}, steps={"quick": 10, "thorough": 14},
         shards={"quick": 5, "thorough": 16}, rule="rule-based machine over segment / run (list, tuple, successive, concatenated; derived or fresh follow-up programs; run options) / repeat same object / "
              "reset (+ old object, backend options) / rerun / compile / failing run / refused run on three engines"),
+    Sub("continuation_del", check=check_del, strategy=lambda ctx: del_case(), examples={"quick": 120, "thorough": 1500}, shards={"quick": 1, "thorough": 4},
+        budget={"quick": 100, "thorough": 1200},
+        rule="A on 2..4 modes, B = Program(A) with gates, Del of an inherited mode, gates on the rest [, C = Program(B)] on gaussian / fock engines: "
+             "one list == successive calls == one concatenated program == refsim's reduced state; parent snapshot unchanged by writing and by running the continuation"),
 ]
 
 MANIFEST = {
